@@ -8,7 +8,7 @@ package redis
 
 //@ func crc16
 //@   mode bv
-//@   prop C12 C11
+//@   prop C12 C11 C03 C04
 //@   modifies nothing
 //@   ensures @xmodem crc == crcfold(b, len(b))
 //@   unfold crcfold(b, 0)
@@ -19,7 +19,7 @@ package redis
 //@   loop 0 unfold crcfold(b, i+1)
 
 //@ func hashtag
-//@   prop C12 C11
+//@   prop C12 C11 C03 C04
 //@   modifies nothing
 //@   ensures @whole (tagopen(b) == len(b) || tagclose(b) == len(b) || tagclose(b) == tagopen(b)+1) ==> result == b
 //@   ensures @inner !(tagopen(b) == len(b) || tagclose(b) == len(b) || tagclose(b) == tagopen(b)+1) ==> sameslice(result, b[tagopen(b)+1:tagclose(b)])
@@ -575,7 +575,7 @@ package redis
 //@   ensures @cluster-down-triggers-a-slot-refresh trigcount == old(trigcount) + 1
 
 //@ func (*upstream).doSlotsRefresh
-//@   prop C11 C07
+//@   prop C11 C07 C04 C14 C03
 //@   requires u != nil
 //@   loop 1 invariant @every-listed-slot-now-points-to-the-freshly-parsed-node forall j int :: 0 <= j && j <= rangeindex && 0 <= inst.Slots[j] && inst.Slots[j] < 16384 ==> u.slots[inst.Slots[j]] == inst
 
@@ -1176,3 +1176,19 @@ package redis
 //@   requires u != nil && u.quit != nil && !closed(u.quit) && u.done != nil
 //@   modifies all
 //@   ensures @returns-only-after-the-serve-loop-has-finished waitedfor(u.done)
+
+// ---- C13: pooled scratch buffers start empty and are emptied before they go back ------------------------------
+
+//@ func newBuffer
+//@   prop C13
+//@   modifies buflen
+//@   assume @after:Get typeis(lastresult, "*bytes.Buffer") && ifaceptr(lastresult, "*bytes.Buffer") != nil
+//@   ensures @a-pooled-buffer-starts-empty result.Buffer != nil && result.pool != nil && buflen[result.Buffer] == 0
+//@   ensures @other-buffers-untouched forall x loc :: x != result.Buffer ==> buflen[x] == old(buflen[x])
+
+//@ func (*buffer).Close
+//@   prop C13
+//@   requires b != nil && b.Buffer != nil && b.pool != nil
+//@   modifies buflen, b.Buffer
+//@   callpre Put @the-buffer-goes-back-empty buflen[b.Buffer] == 0 && arg0 == b.pool
+//@   ensures @handle-cleared b.Buffer == nil
